@@ -90,8 +90,19 @@ def handle(case):
     SymbolGraph()
     inst = {n: FPerson(name=n) for n in "abcd"}
     steps = []
+    prev = set()
+    reused = 0
     for st in case["h"]:
         out = {}
+        if case.get("churn"):
+            # short-lived elements: whatever is in neither field of `a` dies now and a fresh object takes its name
+            for n in "bcd":
+                if n not in prev:
+                    addr = id(inst[n])
+                    del inst[n]
+                    inst[n] = FPerson(name=n)
+                    reused += id(inst[n]) == addr
+            prev = set(st["lst"]) | set(st["st"])
         try:
             apply(inst, st["op"], case.get("ak", "list"))
         except Exception as ex:
@@ -99,7 +110,7 @@ def handle(case):
         out.update(observe(inst))
         steps.append(out)
     inst.clear()
-    return {"steps": steps}
+    return {"steps": steps, "addr_reuse": reused}
 
 
 def setup(args):
